@@ -57,31 +57,35 @@ META = dict(
         "nsi_betweenness only undirected"],
 )
 
+# typical weights: chosen so that the corrected degree k/tw - 1 (a factor of
+# the corrected clustering denominators) cannot vanish exactly for integer
+# or split-integer node weights - at such points the measure is 0/0
+TW2, TW3 = 2.137, 3.271
 # (label, method, kwargs, kind, needs)   kind: g(lobal) n(ode) p(air)
 U, D, C = "undirected", "directed-ok", "connected"
 NET = [
-    ("nsi_degree", {}, "n", D), ("nsi_degree", {"typical_weight": 2.0}, "n", D),
+    ("nsi_degree", {}, "n", D), ("nsi_degree", {"typical_weight": TW2}, "n", D),
     ("nsi_degree", {"key": "w"}, "n", D),
-    ("nsi_degree", {"key": "w", "typical_weight": 2.0}, "n", D),
+    ("nsi_degree", {"key": "w", "typical_weight": TW2}, "n", D),
     ("nsi_indegree", {}, "n", D), ("nsi_indegree", {"key": "w"}, "n", D),
     ("nsi_outdegree", {}, "n", D), ("nsi_outdegree", {"key": "w"}, "n", D),
-    ("nsi_outdegree", {"typical_weight": 3.0}, "n", D),
+    ("nsi_outdegree", {"typical_weight": TW3}, "n", D),
     ("nsi_bildegree", {}, "n", D), ("nsi_bildegree", {"key": "w"}, "n", D),
     ("nsi_average_neighbors_degree", {}, "n", U),
     ("nsi_max_neighbors_degree", {}, "n", U),
     ("nsi_local_clustering", {}, "n", U),
-    ("nsi_local_clustering", {"typical_weight": 2.0}, "n", U),
+    ("nsi_local_clustering", {"typical_weight": TW2}, "n", U),
     ("nsi_global_clustering", {}, "g", U),
     ("nsi_transitivity", {}, "g", U),
     ("nsi_local_soffer_clustering", {}, "n", U),
     ("nsi_local_cyclemotif_clustering", {}, "n", D),
     ("nsi_local_cyclemotif_clustering", {"key": "w"}, "n", D),
-    ("nsi_local_cyclemotif_clustering", {"typical_weight": 2.0}, "n", D),
+    ("nsi_local_cyclemotif_clustering", {"typical_weight": TW2}, "n", D),
     ("nsi_local_midmotif_clustering", {}, "n", D),
     ("nsi_local_midmotif_clustering", {"key": "w"}, "n", D),
     ("nsi_local_inmotif_clustering", {}, "n", D),
     ("nsi_local_inmotif_clustering", {"key": "w"}, "n", D),
-    ("nsi_local_inmotif_clustering", {"typical_weight": 2.0}, "n", D),
+    ("nsi_local_inmotif_clustering", {"typical_weight": TW2}, "n", D),
     ("nsi_local_outmotif_clustering", {}, "n", D),
     ("nsi_local_outmotif_clustering", {"key": "w"}, "n", D),
     ("nsi_twinness", {}, "p", U),
@@ -176,6 +180,11 @@ def relation(kind, x0, x1, v, n, rtol, natural=0.0):
         return close(x0, x1, rtol)
     x0 = np.asarray(x0, dtype=float)
     x1 = np.asarray(x1, dtype=float)
+    # single entries (the twins) are compared on the scale of the whole
+    # result vector, not on their own
+    fin = np.isfinite(x0) & (np.abs(x0) < 1e9)
+    if fin.any():
+        natural = max(natural, float(np.abs(x0[fin]).max()))
     if kind == "n":
         if x0.shape != (n,) or x1.shape != (n + 1,):
             return False
